@@ -9,6 +9,7 @@ datetime or a text that spells a timestamp, "T<text>" for other text, "N" when
 there is no `modified`; payload is the object's x_pay."""
 import datetime
 import json
+import time
 import os
 import shutil
 import sys
@@ -146,7 +147,7 @@ def build(x):
 
 def mk_filter(f):
     k, op = f["k"], f.get("op", "=")
-    name = {"type": "type", "id": "id", "pay": "x_pay"}.get(k) or f["p"]
+    name = {"type": "type", "id": "id", "pay": "x_pay", "mod": "modified"}.get(k) or f["p"]
     return stix2.Filter(name, op, f["v"])
 
 
@@ -219,12 +220,21 @@ def run_c11(case, ctx):
         root = None
     else:
         root = ctx.fresh_dir()
-        store = stix2.FileSystemStore(root, allow_custom=True, bundlify=bool(case.get("bundlify")))
+        # the directory as the caller names it: absolute, or relative to the working directory at construction
+        root_arg = os.path.relpath(root, os.getcwd()) if case.get("relpath") else root
+        store = stix2.FileSystemStore(root_arg, allow_custom=True, bundlify=bool(case.get("bundlify")))
     if af:
         store.source.filters.add(af)
     for st in case["steps"]:
         op = st["op"]
-        if op == "add":
+        if op == "chdir":
+            os.chdir(ctx.fresh_dir())            # the process moves elsewhere; the store must not (no token)
+        elif op == "reopen":
+            if root:                             # a fresh store object over the same directory (no token)
+                store = stix2.FileSystemStore(root, allow_custom=True, bundlify=bool(case.get("bundlify")))
+                if af:
+                    store.source.filters.add(af)
+        elif op == "add":
             try:
                 store.add(build(st["x"]))
                 out.append("ok")
@@ -490,7 +500,13 @@ def run_factory(case):
 
 
 def main():
+    for a in sys.argv[1:]:
+        if a.startswith("--tz="):                # run under another POSIX zone: answers must not change
+            os.environ["TZ"] = a[5:]
+            time.tzset()
     ctx = Ctx()
+    cwd0 = os.getcwd()
+    tz0 = os.environ.get("TZ")
     try:
         for line in sys.stdin:
             line = line.strip()
@@ -498,6 +514,9 @@ def main():
                 continue
             case = json.loads(line)
             try:
+                if case.get("tz"):               # this case runs under another POSIX zone: answers must not change
+                    os.environ["TZ"] = case["tz"]
+                    time.tzset()
                 if case["kind"] == "probe":
                     o = v21.Identity(name="p", modified=datetime.datetime(2020, 1, 1, 0, 0, 0))
                     res = {"naive_kept": o["modified"].tzinfo is None}
@@ -512,6 +531,13 @@ def main():
                 res = {"worker_error": "%s: %s" % (type(e).__name__, e), "trace": traceback.format_exc()[-800:]}
             print(json.dumps(res))
             sys.stdout.flush()
+            os.chdir(cwd0)
+            if case.get("tz"):
+                if tz0 is None:
+                    os.environ.pop("TZ", None)
+                else:
+                    os.environ["TZ"] = tz0
+                time.tzset()
             for name in os.listdir(ctx.tmp):
                 shutil.rmtree(os.path.join(ctx.tmp, name), ignore_errors=True)
                 try:
